@@ -97,9 +97,8 @@ def predict(cfg, rng, q=None):
     spec = np.abs(np.fft.rfft(q.curvature)); tail = spec[-3:].max() / max(spec.max(), 1e-300)
     if tail < 1e-10:
         n += 1
-        D = q.d_d_phi
-        def ddl(v):   # covariant d/dl of cylindrical components
-            dv = D @ v
+        def ddl(v):   # covariant d/dl of cylindrical components (FFT derivative, independent of the object's matrices)
+            dv = np.stack([dphi_indep(q, v[:, c]) for c in range(3)], axis=1)
             return np.array([dv[:, 0] - v[:, 1], dv[:, 1] + v[:, 0], dv[:, 2]]).T / q.d_l_d_phi[:, None]
         k_, t_ = q.curvature[:, None], q.torsion[:, None]
         e = max(np.max(np.abs(ddl(T) - k_ * N)), np.max(np.abs(ddl(N) + k_ * T - t_ * B)), np.max(np.abs(ddl(B) + t_ * N)))
